@@ -1515,7 +1515,7 @@ fn parse_mapping(mapping: &Mapping) -> crate::Result<Expression> {
                                         .collect::<Vec<_>>(),
                                 )
                                 .build()
-                                .expect("could not build regex set"),
+                                .map_err(crate::error::parse_invalid_ident)?,
                                 false,
                             ),
                             f.to_owned(),
@@ -1545,7 +1545,7 @@ fn parse_mapping(mapping: &Mapping) -> crate::Result<Expression> {
                                 )
                                 .case_insensitive(true)
                                 .build()
-                                .expect("could not build regex set"),
+                                .map_err(crate::error::parse_invalid_ident)?,
                                 true,
                             ),
                             f.to_owned(),
